@@ -165,6 +165,30 @@ def feature_circuits():
     add("buffers_only", ["a", "b"],
         [("i1", G.IFF, ("a",)), ("i2", G.IFF, ("i1",)), ("l", G.LIFF, ("i2", "b")),
          ("r", G.RIFF, ("a", "l")), ("o", G.AND, ("r", "i1"))], ["o", "i2", "r"])
+    # n-ary parity gate with a repeated operand next to its sibling over the de-duplicated operands
+    add("xor_repeated_operand_sibling", ["a", "b", "c"],
+        [("g", G.AND, ("a", "b")), ("h", G.AND, ("b", "a")), ("x", G.XOR, ("g", "h", "c")), ("y", G.XOR, ("g", "c")),
+         ("z", G.NXOR, ("g", "g", "c")), ("w", G.NXOR, ("c", "g"))], ["x", "y", "z", "w"])
+    # duplicates behind duplicates (second level only becomes equal after relinking)
+    add("two_level_duplicates", ["a", "b", "c"],
+        [("d1", G.OR, ("a", "b")), ("d2", G.OR, ("b", "a")), ("e1", G.AND, ("d2", "c")), ("e2", G.AND, ("c", "d2")), ("e3", G.AND, ("d2", "c")),
+         ("f1", G.GT, ("e1", "d1")), ("f2", G.GT, ("e2", "d2")), ("o", G.XOR, ("f1", "f2", "e3"))], ["o", "e2", "f2"])
+    # pseudo-unary gates whose *insignificant* operand is a buffer / negation, negated again
+    add("rnot_with_buffer_on_the_left", ["y", "z"],
+        [("bz", G.IFF, ("z",)), ("r", G.RNOT, ("bz", "y")), ("n", G.NOT, ("r",)), ("l", G.LNOT, ("y", "bz")), ("m", G.NOT, ("l",)),
+         ("rr", G.RNOT, ("n", "r")), ("o", G.AND, ("n", "m", "rr"))], ["n", "m", "o", "rr"])
+    add("long_negation_chain", ["a"],
+        [("n1", G.NOT, ("a",)), ("n2", G.LNOT, ("n1", "a")), ("n3", G.RNOT, ("a", "n2")), ("n4", G.NOT, ("n3",)), ("n5", G.NOT, ("n4",)),
+         ("n6", G.LNOT, ("n5", "n1")), ("n7", G.NOT, ("n6",)), ("n8", G.RNOT, ("n2", "n7"))], ["n8", "n4", "n6", "n7"])
+    add("long_buffer_chain", ["a", "b"],
+        [("i1", G.IFF, ("a",)), ("i2", G.LIFF, ("i1", "b")), ("i3", G.RIFF, ("b", "i2")), ("i4", G.IFF, ("i3",)), ("i5", G.RIFF, ("i1", "i4")),
+         ("o", G.XOR, ("i5", "b"))], ["o", "i5", "i3"])
+    # an input that is directly an output several times, and an output that is also an operand
+    add("input_output_and_operand_output", ["a", "b"], [("g", G.AND, ("a", "b")), ("h", G.OR, ("g", "a"))], ["a", "g", "h", "a", "g"])
+    # equivalent gates where the output is not the first-visited representative
+    add("equivalent_output_not_representative", ["a", "b"],
+        [("o1", G.AND, ("a", "b")), ("o2", G.NOR, ("na", "nb")), ("na", G.NOT, ("a",)), ("nb", G.NOT, ("b",)), ("o3", G.OR, ("o1", "a"))],
+        ["o1", "o3", "o2"], ["a", "b", "na", "nb", "o2", "o1", "o3"])
     add("no_outputs", ["a"], [("g", G.NOT, ("a",))], [])
     add("single_input_passthrough", ["a"], [], ["a"])
     return out
